@@ -77,6 +77,28 @@ def directed_archives(ctx, rnd):
 
 
 
+def mac_name_archives(rnd):
+    """members of Mac archives (OS type 'm', stored) whose data starts with a MacBinary header that is valid in every field
+    EXCEPT that the name it states differs from the archive header's: longer by 1, 2, 3, 30 bytes or up to the 63 the field
+    can hold, shorter, empty, equal up to a NUL.  The library compares the two names; the archive header's name is a heap
+    string of its own length, the MacBinary one a length-prefixed field."""
+    import test_rdr as T
+    res = []
+    k = 0
+    for fn in (b"m", b"name.txt", b"abcdefghijklmnopqrst"):
+        others = [fn + b"x", fn + b"xy", fn + b"\0\0\0", fn + bytes(range(65, 95)), (fn * 63)[:63], (fn * 63)[:62], fn[:-1], b"",
+                  fn[:-1] + bytes([fn[-1] ^ 1]) + b"zz"]
+        for other in others:
+            lv = 1 + k % 3
+            k += 1
+            dfork = bytes((i * 5 + 1) & 0xff for i in range(rnd.choice([1, 77, 128, 300])))
+            body = dfork + bytes(-len(dfork) % 128)
+            data = T.macbinary_header(other, len(dfork), 0, T.T_A) + body
+            m = T.Member(T.header(lv, b"-lh0-", len(data), len(data), T.crc16(data), fn, T.MAC, None, None, T.T_A), data, "file", True)
+            res.append(T.archive([m, T.mac_member(rnd, b"n", "valid", lv)]))
+    return res
+
+
 def archives(ctx, rnd, cb):
     res = []      # (bytes, kind)
     paths = sorted(p for p in glob.glob(os.path.join(common.REPO, "test/archives/*/*")) if os.path.isfile(p))
@@ -200,6 +222,16 @@ def run(ctx):
         for a, kind in arcs:
             lines.append("hdr %s %s" % (rnd.choice(["file", "pipe", "cbskip", "cbnoskip"]), a.hex() if a else "-"))
             dist["lib:" + kind] += 1
+        # every skip distance 0 .. 100 and around 128 / 160 / 256 through the two read-and-discard skips (pipe: 32-byte buffer on
+        # the stack of file_source_skip_fallback; callbacks without skip: the one of lha_input_stream_skip)
+        for k_ in list(range(0, 101)) + [127, 128, 129, 130, 159, 160, 161, 162, 255, 256, 257, 258]:
+            ms_ = b""
+            for nm_, n_ in ((b"a", 3), (b"mid", k_), (b"z", 2)):
+                ms_ += lb.build_header({"level": 1 + k_ % 2, "method": b"-lh0-", "clen": n_, "length": n_, "crc": 0, "attr": 0x20, "os": ord('U'),
+                                        "time": 0x21 if k_ % 2 == 0 else 1000000000, "name": nm_, "exts": [(1, nm_)]}) + bytes((3 * i_ + k_) & 0xff for i_ in range(n_))
+            for kind_ in ("pipe", "cbnoskip"):
+                lines.append("hdrs %s %s" % (kind_, (ms_ + b"\0").hex()))
+                dist["lib:skip-sizes"] += 1
         co = common.run_lines_parallel([hexe], lines)
         mo = common.run_lines_parallel([ctx.model], lines)
         nontriv = 0
@@ -212,6 +244,20 @@ def run(ctx):
                 nontriv += 1
             if c != m:
                 mism.append({"case": ln[:3000], "c": c[:500], "model": m[:500]})
+        # (a2) the same lines through an UNoptimised gcc build of the driver without instrumentation: the sanitizer build is
+        #      compiled with optimisation, and an optimiser may delete code whose behaviour is undefined instead of running
+        #      it (a call through a NULL skip callback vanished from the clang -O1 build); at -O0 it is executed and the driver
+        #      dies.  Only a dead driver counts here (no time-outs), nothing is compared
+        try:
+            hexe0 = cb.compile("drv_hdr_O0", [os.path.join(common.CDIR, "drv_hdr.c")] + cb.lib_sources(), extra=["-O0"], sanitize=False, cc="gcc")
+            co0 = common.run_lines_parallel([hexe0], lines)
+            for ln, c0 in zip(lines, co0):
+                dist["lib-O0"] += 1
+                if c0.startswith("CRASH"):
+                    viol.append({"property": PID, "kind": "library-crash-unoptimised-build", "case": ln[:100000], "observed": c0[:300],
+                                 "build": "gcc -O0, no sanitizer", "sig": "libcrash-O0:" + c0.split()[1][:20]})
+        except common.Broken as e:
+            ctx.notes.append("gcc -O0 driver not built: %s" % str(e)[:200])
         # (b) the tool, every mode
         os.chown(scratch, 65534, 65534) if os.geteuid() == 0 else None
         jobs = []
@@ -241,6 +287,35 @@ def run(ctx):
                 a = lb.build_header(f) + st + b"\0"
                 jobs.append((k6, a, "decoder-aimed", rnd6.choice([["t"], ["t"], ["p"], ["xq2f"]]))); k6 += 1
                 dist["decoder-aimed:" + meth] += 1
+        # 7. entries typed as symbolic links (Unix mode 012xxxx on -lhd-) whose name holds no '|', one '|' at either end, or
+        #    only a path; alone and followed by members with and without a path; extracted for real (the reader's directory
+        #    stack and deferred-link list take such headers as they come)
+        import struct
+        for lv in (1, 2, 3):
+            for exts in ([(1, b"newdir")], [(1, b"newdir|")], [(1, b"|t")], [(2, b"p\xff")], [(2, b"p\xffq|r\xff")], [(1, b"n"), (2, b"d\xff")],
+                         [(1, b"|")], []):
+                f = {"level": lv, "method": b"-lhd-", "clen": 0, "length": 0, "crc": 0, "attr": 0x20, "os": ord("U"),
+                     "time": 0x21 if lv == 1 else 1000000000, "exts": list(exts) + [(0x50, struct.pack("<H", 0o120777))]}
+                if lv == 1:
+                    f["name"] = b""
+                g = {"level": 2, "method": b"-lh0-", "clen": 3, "length": 3, "crc": lb.crc16(b"abc"), "attr": 0x20, "os": ord("U"),
+                     "time": 1000000000, "exts": [(1, b"f"), (2, b"sub\xff"), (0x50, struct.pack("<H", 0o100644))]}
+                try:
+                    a1 = lb.build_header(f)
+                except Exception:
+                    continue
+                for tail in (b"", lb.build_header(g) + b"abc"):
+                    for mode in (["x"], ["xq2f"], ["e"], ["t"], ["v"]):
+                        jobs.append((k6, a1 + tail + b"\0", "linktyped", mode)); k6 += 1
+                        dist["linktyped"] += 1
+        # 8. Mac members whose MacBinary header states another name than the archive header (decoded by the tool: t / xq2f / p)
+        try:
+            for j_, a in enumerate(mac_name_archives(random.Random(ctx.seed * 86028157 + 8))):
+                for mode in (["t"], [["xq2f"], ["p"], ["xq2f"]][j_ % 3]):
+                    jobs.append((k6, a, "mac-name", mode)); k6 += 1
+                    dist["mac-name"] += 1
+        except Exception as e:
+            ctx.notes.append("mac-name archives not generated: %r" % (e,))
         # the extra option/argument forms, on intact repository archives (so that members are really matched and extracted)
         # and on a few damaged ones
         rnd2 = random.Random(ctx.seed * 49979687 + 8)
@@ -280,11 +355,11 @@ def run(ctx):
                "rule": "five archive streams (unstructured bytes with plausible signatures; mutations of the repository's archives: "
                        "bit flips, overwrites, deletions, insertions, truncations; generated multi-member archives with one length field "
                        "set to 0, min-1, +-1, max, 1 MiB(+1); level 1-3 extended-header chains with the length field of every link set to 0 .. field size + 3 and to the remaining size -1/0/+1/+field size, followed by each known header type; archives of the reader test's generators: directories, links, Mac members incl. ones whose data ends before the MacBinary header, damaged members), each (a) iterated through the library with the four stream kinds and "
-                       "compared with the model, (b) given to the sanitizer build of the tool in one of the modes l v lv vv t p xn x "
+                       "compared with the model (and run through a gcc -O0 build without instrumentation, where only a dead driver counts), (b) given to the sanitizer build of the tool in one of the modes l v lv vv t p xn x "
                        "xq2f e as uid 65534 in a scratch directory; plus (directed_archives) level-0 extended areas of every length 1..30 starting like a Unix / "
                        "OS-9 area and every length field of every level set to 0..70 and around its value with the checksum repaired (library, a "
-                       "sample through the tool), and (MODES2) w=DIR extraction and member patterns after the archive name on intact and "
-                       "damaged archives. plus members aimed at the decoders' table readers (single-code forms with the largest raw values, count fields at their extremes) decoded by the tool. non-trivial = archive that yields at least one header / a tool run",
+                       "sample through the tool), every skip distance 0..100 and around 128/160/256 through the pipe and no-skip-callback kinds, and (MODES2) w=DIR extraction and member patterns after the archive name on intact and "
+                       "damaged archives. plus Mac members whose MacBinary header is valid except for a name that differs from the archive header's (longer by 1..62 bytes, shorter, empty). plus members aimed at the decoders' table readers (single-code forms with the largest raw values, count fields at their extremes) decoded by the tool, and entries typed as symbolic links with no / a misplaced '|' extracted by the tool. non-trivial = archive that yields at least one header / a tool run",
                "distribution": dict(dist), "samples": [lines[0][:160], lines[len(lines) // 2][:160], lines[-1][:160]]}
         return {"violations": viol[:10], "mismatches": mism[:10], "coverage": cov,
                 "search_note": "direct oracle: sanitizer reports / abnormal exits of the library driver and of the tool"}
@@ -308,7 +383,10 @@ def replay(payload):
             print("exit", rc, "abnormal:", ab)
             print("REPRODUCED" if ab else "not reproduced")
             return 1 if ab else 0
-        hexe = cb.compile("drv_hdr", [os.path.join(common.CDIR, "drv_hdr.c")] + cb.lib_sources())
+        if payload.get("kind") == "library-crash-unoptimised-build":
+            hexe = cb.compile("drv_hdr_O0", [os.path.join(common.CDIR, "drv_hdr.c")] + cb.lib_sources(), extra=["-O0"], sanitize=False, cc="gcc")
+        else:
+            hexe = cb.compile("drv_hdr", [os.path.join(common.CDIR, "drv_hdr.c")] + cb.lib_sources())
         out = common.run_lines_parallel([hexe], [payload["case"]])
         print("observed:", out[0][:400])
         bad = not (out[0].startswith("H ") or out[0].startswith("E "))
